@@ -230,10 +230,14 @@ pp_twprge_pm = re.compile(
     {twprge_regex.pattern}
     
     # Deadspace ...
-    (\s*[:,;\.\-–—]*\s*)
+    # (Each of these lookahead + backreference pairs matches its contents
+    # 'atomically', to rule out needlessly retrying every possible split
+    # of the same whitespace among adjacent optional subpatterns.)
+    (?=(?P<pm_deadspace>\s*[:,;\.\-–—]*\s*))(?P=pm_deadspace)
     
     # of the ...
-    (o*f*)?\s*(t*h*e*|t*e*h*|h*t*e|h*e*t*)?\s*
+    (?=(?P<pm_of>(o*f*)?\s*))(?P=pm_of)
+    (?=(?P<pm_the>(t*h*e*|t*e*h*|h*t*e|h*e*t*)?\s*))(?P=pm_the)
     
     # Anything, arbitrarily capped at 25 characters.
     # (Double-curly brackets to escape the f-string syntax.)
